@@ -15,6 +15,15 @@ ASSUME_R = ["World R: pipes / AF_UNIX socketpairs change readiness synchronously
             "the reference model in ref/evmodel.hpp is the statement of 'documented behaviour'; ties the documentation leaves open (equal deadlines, fds reported by one wait) are accepted in any order",
             "sampling of plans by seeded search, not enumeration"]
 
+REAL_BUF = ["buffer.c", "evbuffer-internal.h", "event.c (deferred callbacks)", "evutil.c"]
+SIM_BUF = ["allocator (ledger, n-th allocation failure)", "read/readv/write/writev/sendfile/pread/ioctl(FIONREAD) results (scripted per op on a real socketpair)", "monotonic clock (virtual)", "locks (simulator-owned)"]
+ASSUME_BUF = ["the byte-string model in h/h_evbuf.cpp states the documented behaviour of each call; return values the documentation leaves open are not compared",
+              "chain invariants are checked through evbuffer-internal.h (shim/shim.c)", "sampling of operation sequences by seeded search, not enumeration"]
+def h3(quick, thorough):
+    def stages(tier):
+        return [dict(name="h_evbuf", harness="h_evbuf", count=quick if tier == "quick" else thorough)]
+    return stages
+
 PROPS = {
  "C01": dict(level="exploration", stages=h1("C01", 60000, 900000),
    rule="plans of 3-60 (thorough: 10-200) ops over 2-12 events drawn from one seed; a run is non-trivial when >= 2 timer callbacks fired and >= 1 add/del/re-add/remove_timer hit an event whose timeout was pending or active; distinct = distinct full-trace hashes among non-trivial runs",
@@ -32,4 +41,19 @@ PROPS = {
    rule="same plan family, watcher-heavy mix (up to 6 prepare/check watchers created and freed at top level, from event callbacks and from watcher callbacks); non-trivial when >= 1 watcher callback was compared; distinct = distinct trace hashes among non-trivial runs",
    components=dict(real=REAL_CORE, simulated=SIM_COMMON, stubbed=[]), assumptions=ASSUME_R,
    expected_probes=["watcher-created-in-callback"]),
+ "C12": dict(level="exploration", stages=h3(20000, 300000),
+   rule="sequences of 5-60 (thorough 10-150) evbuffer calls over 4 buffers, sizes biased to chain boundaries; after every call: return value, out-parameters, full content (via peek), chain invariants; non-trivial when >= 10 calls ran and some buffer had >= 3 data chains; distinct = distinct trace hashes among non-trivial runs. No schedule or fault in this property: it is the fault-free baseline configuration of the C13-C16 harness",
+   components=dict(real=REAL_BUF, simulated=SIM_BUF, stubbed=[]), assumptions=ASSUME_BUF, expected_probes=["pullup", "search-hit"]),
+ "C13": dict(level="exploration", stages=h3(30000, 450000),
+   rule="same sequences with up to 4 callbacks per buffer, enable/disable/NODEFER toggles, self-removing and buffer-mutating callbacks, deferred delivery through a real event_base; non-trivial when a callback saw added and deleted both non-zero in one report; distinct = distinct trace hashes among non-trivial runs",
+   components=dict(real=REAL_BUF, simulated=SIM_BUF, stubbed=[]), assumptions=ASSUME_BUF, expected_probes=["callback-disabled", "callback-removes-itself", "callback-mutates-buffer"]),
+ "C14": dict(level="fault_enumeration", stages=h3(1500, 25000),
+   rule="for each sampled sequence of 3-25 calls a counting pass records the number A of library allocations, then the sequence is re-run once per n in 1..A with the n-th allocation (optionally: and every later one) failing; the failing call must fail cleanly (all four buffers unchanged) or succeed fully; non-trivial when the failure fired inside a call; distinct = distinct trace hashes among non-trivial runs (one run = one sequence with its whole sweep)",
+   components=dict(real=REAL_BUF, simulated=SIM_BUF, stubbed=[]), assumptions=ASSUME_BUF + ["exhaustive over allocation positions within each sampled sequence (capped at 400 positions); the sequences are sampled"], expected_probes=[]),
+ "C15": dict(level="exploration", stages=h3(12000, 200000),
+   rule="sequences rich in add_reference(_with_offset), add_buffer_reference and file segments (memfd files, offsets/lengths across page boundaries, mmap / sendfile / read modes); referenced memory is mapped read-only and scribbled by its cleanup callback, so a modification in place faults and a premature cleanup shows up as wrong content; non-trivial when referenced bytes were read back through some path and a cleanup was observed; distinct = distinct trace hashes among non-trivial runs",
+   components=dict(real=REAL_BUF, simulated=SIM_BUF + ["file segments over real memfd files (mmap64 / pread / sendfile real)"], stubbed=[]), assumptions=ASSUME_BUF, expected_probes=["file-segment", "buffer-reference"]),
+ "C16": dict(level="fault_enumeration", stages=h3(25000, 400000),
+   rule="evbuffer_read / evbuffer_write(_atmost) on a real socketpair with the first system-call result of each call scripted: a byte limit from 1..request, EINTR, EAGAIN, ECONNRESET/EPIPE, FIONREAD lying high/low/failing; buffer shapes come from the surrounding random calls (many chains, references, file segments, reserved space); non-trivial when a partial transfer happened; distinct = distinct trace hashes among non-trivial runs",
+   components=dict(real=REAL_BUF, simulated=SIM_BUF, stubbed=[]), assumptions=ASSUME_BUF + ["first-result positions are sampled per call, not enumerated exhaustively"], expected_probes=[]),
 }
